@@ -42,6 +42,12 @@ def main():
     lean_ok = C.lake_build(bs, ["wvm"]) if ok_h else False
     proof_ok = C.lake_build(bs, ["Walleye.Props." + prop]) if ok_t else False
     audit = props.audit(prop, bs) if proof_ok else {"theorems": [], "bad": ["proof module does not build"]}
+    if proof_ok and args.tier == "thorough":
+        # independent re-check of the compiled proof module by the toolchain's leanchecker
+        r = C.sh(["lake", "env", "leanchecker", "Walleye.Props." + prop], cwd=C.LEAN, timeout=3600)
+        audit["leanchecker"] = "ok" if r.returncode == 0 else (r.stdout + r.stderr)[-500:]
+        if r.returncode != 0:
+            audit["bad"].append("leanchecker rejected Walleye.Props.%s: %s" % (prop, audit["leanchecker"]))
     ctx = props.Ctx(prop, args.tier, seed, bs, lean_ok and ok_h, proof_ok, audit)
     rc = props.run_check(ctx, spec)
     ctx.finish(time.time() - t0)
